@@ -68,6 +68,7 @@ def run(check: Check) -> None:
     for cls in c08.ACTIVATIONS:  # a present operator must not be replaced by an absent one on the way to the rules (ready, then "operator missing")
         activation_semantics(check, cls, ("conjunction", "disjunction", "implication"))
     c16.tokenisers(check, rule="C1-tok")
+    load_then_evaluate(check)
 
 
 def runtime_sites(check: Check) -> None:
@@ -328,3 +329,93 @@ def readiness_semantics(check: Check) -> None:
                   loc(fn), {"cases": cases}, exhaustive=True, cases=cases)
     # not demanded by the property (an engine that is never reported ready satisfies it vacuously), recorded for the reader only
     check.ok("C1-note", "Engine.is_ready/no-spurious-errors", spurious.get("spurious") or "nothing is reported when nothing needed is missing", loc(fn), {"cases": cases})
+
+
+def load_then_evaluate(check: Check, rule: str = "C1-load") -> None:
+    """C1-load [E on the model texts]: whatever `Antecedent.load` accepts, `Antecedent.activation_degree` evaluates. Both are interpreted
+    (sa/absexec.py): the loader on concrete antecedents over an engine with an ordinary variable A (one term) and a variable C *without terms*
+    (an object with `__len__` 0: falsy, yet a variable readiness tolerates), the evaluator on the tree the loader built. A text the loader rejects
+    is fine (the rule stays unloaded and is skipped); a text it accepts whose evaluation raises is an engine reported ready that cannot be
+    processed."""
+    from ..absexec import AbsExec, Internal, Logger, MObj, Raised, Unknown, _Return
+    from .antecedent_sem import interpret_degree
+
+    p = check.program
+    load = p.func("Antecedent.load")
+    deg = p.func("Antecedent.activation_degree")
+    check.analysed(load)
+    check.analysed(deg)
+    node = load.node
+    params = [a.arg for a in node.args.args]
+    texts = [("A is tA", "A is tA"), ("A is any", "A is any"), ("C is any", "C is any"), ("C is not any", "C is not any"), ("A is tA and C is any", "A is tA C is any and"),
+             ("C is any or A is tA", "C is any A is tA or")]
+    bad = None
+    accepted = rejected = 0
+    try:
+        for infix, postfix in texts:
+            term = MObj("Term", {"name": "tA", "__bool__": True})
+            va = MObj("InputVariable", {"name": "A", "enabled": True, "value": 0.5, "terms": [term], "__len__": 1, "__bases__": ("Variable",)})
+            vc = MObj("InputVariable", {"name": "C", "enabled": True, "value": 0.5, "terms": [], "__len__": 0, "__bases__": ("Variable",)})
+            engine = MObj("Engine", {"variables": [va, vc], "input_variables": [va, vc], "output_variables": [], "__bool__": True})
+            factory = MObj("HedgeFactory", {})
+            hedges = {"any": MObj("Any", {"name": "any", "__bases__": ("Hedge",), "__bool__": True}), "not": MObj("Not", {"name": "not", "__bases__": ("Hedge",), "__bool__": True})}
+
+            def new_prop(ex_, e, args, kw):
+                f = {"variable": None, "hedges": [], "term": None}
+                for k, v in zip(["variable", "hedges", "term"], args):
+                    f[k] = v
+                f.update(kw)
+                f["hedges"] = list(f["hedges"] or [])
+                return MObj("Proposition", {**f, "__bases__": ("Expression",), "__bool__": True, "spec": ("?", (), "")})
+
+            def new_op(ex_, e, args, kw):
+                f = {"name": "", "right": None, "left": None}
+                for k, v in zip(["name", "right", "left"], args):
+                    f[k] = v
+                f.update(kw)
+                return MObj("Operator", {**f, "__bases__": ("Expression",), "__bool__": True})
+
+            hooks = {"contains": lambda ex_, e, c, x: c is factory and x in hedges,
+                     "method:construct": lambda ex_, e, recv, args, kw: hedges[args[0]] if recv is factory and args and args[0] in hedges else (_ for _ in ()).throw(Raised("ValueError", e)),
+                     "method:infix_to_postfix": lambda ex_, e, recv, args, kw: postfix, "method:debug": lambda *a: None, "method:info": lambda *a: None}
+            ex = AbsExec(load.qualname, hooks, helpers={k: v for k, v in load.cls.methods.items() if k in ("unload",) or (k.startswith("_") and not k.startswith("__"))})
+            ex.concrete_strings = True
+            me = MObj("Antecedent", {"text": infix, "expression": None})
+            settings = MObj("Settings", {"factory_manager": MObj("FactoryManager", {"hedge": factory}), "logger": Logger(), "debugging": False})
+            env = {params[0]: me, params[1]: engine, "Proposition": new_prop, "Operator": new_op, "settings": settings,
+                   "Rule": MObj("class", {"IS": "is", "AND": "and", "OR": "or", "IF": "if", "THEN": "then", "WITH": "with"}), "Function": Opaque_("Function"),
+                   "Any": ("class", "Any"), "Hedge": ("class", "Hedge"), "Variable": ("class", "Variable"), "InputVariable": ("class", "InputVariable"),
+                   "OutputVariable": ("class", "OutputVariable")}
+            body = [st for st in node.body if not (isinstance(st, ast.ImportFrom) and any(a.name in ("Rule", "Proposition", "Operator", "Any", "settings", "Function") for a in st.names))]
+            try:
+                ex.block(body, env)
+            except _Return:
+                pass
+            except Raised:
+                rejected += 1
+                continue
+            except Internal as err:
+                bad = bad or f"`if {infix} then ...`: loading ends with an internal {err.cls}"
+                continue
+            tree = me.fields.get("expression")
+            if not isinstance(tree, MObj):
+                rejected += 1
+                continue
+            accepted += 1
+            got = interpret_degree(deg, tree, True, True)
+            if isinstance(got, str):
+                bad = bad or (f"`if {infix} then ...` (C is a variable without terms) is accepted by Antecedent.load, but evaluating the loaded antecedent ends with {got.lstrip('!')}: "
+                              "the rule counts as loaded, readiness reports no error, and process() raises")
+    except Unknown as u:
+        raise AnalysisError(str(u)) from None
+    if accepted < 2:
+        raise AnalysisError(f"{rule}: the loader accepted {accepted} of the model antecedents (the ordinary ones must load)")
+    check.require(bad is None, rule, "Antecedent.load~activation_degree/loadable-is-evaluable",
+                  f"every model antecedent the loader accepts is evaluated without an exception ({accepted} accepted, {rejected} rejected at load)" if bad is None else bad,
+                  loc(load), {"accepted": accepted, "rejected": rejected}, exhaustive=True, cases=len(texts))
+
+
+def Opaque_(what: str):  # type: ignore[no-untyped-def]
+    from ..absexec import Opaque
+
+    return Opaque(what)
